@@ -304,7 +304,8 @@ func rulesC17(r *Run) {
 	r.Kind("R1", "K9")
 	ruleSecureKinds(r, "R1")
 	ruleSecureNoSkip(r, "R1")
-	r.Expect("R1", 23)
+	ruleTimeExemptionOnElement(r, "R1") // untagged data is left intact
+	r.Expect("R1", 26)
 
 	r.Kind("R2", "K3")
 	ruleCloneScrub(r, "R2")
@@ -766,6 +767,10 @@ func rulesC18(r *Run) {
 	r.Kind("R2", "K7")
 	r.Kind("R3", "K2")
 	r.Kind("R4", "K2")
+	// R5 (D37): the scrub pass every default clone runs leaves what it is not meant to touch as it was
+	r.Kind("R5", "K9")
+	ruleTimeExemptionOnElement(r, "R5")
+	r.Expect("R5", 3)
 	for _, s := range cloneSubjects {
 		fn := r.fnByKey("R1", cloneKey(s.fn))
 		if fn == nil {
@@ -1482,16 +1487,19 @@ func ruleSecureNoSkip(r *Run, rule string) {
 		}
 		ast.Inspect(e, func(n ast.Node) bool {
 			if x, ok := n.(ast.Expr); ok {
-				if _, isK := isReflectKindCall(info, x); isK {
-					found = true
+				// the kind of the field's VALUE (the kind of a StructField's type is part of the embedded-struct test)
+				if recv, isK := isReflectKindCall(info, x); isK {
+					if tv, ok := info.Types[recv]; ok && TypeKey(tv.Type) == "reflect.Value" {
+						found = true
+					}
 				}
 			}
 			return !found
 		})
 		return found
 	}
-	bad := ""
-	var bpos = fn.Decl.Pos()
+	bad, badEmb := "", ""
+	var bpos, posEmb = fn.Decl.Pos(), fn.Decl.Pos()
 	n := 0
 	all := append(append([]Path{}, paths...), fl.Truncated()...)
 	for i := range all {
@@ -1548,6 +1556,33 @@ func ruleSecureNoSkip(r *Run, rule string) {
 			if !handled && !unexported && bad == "" {
 				bad, bpos = "an exported field without the secure tag is passed over before its kind is examined (last test: "+guard+"): every secure-tagged value nested below such a field survives clone/Secure and is rendered", p.Ev[end-1].Pos
 			}
+			// D42: "not exported" does not justify passing over an embedded struct — the exported fields of an embedded
+			// struct of an unexported type are promoted, encoded and rendered like any other. Assume such a field and
+			// refute: the iteration that passes it over must be impossible.
+			if !handled && unexported && badEmb == "" {
+				embAtom := func(e ast.Expr) (string, bool, bool) {
+					e = ast.Unparen(e)
+					if c, ok := e.(*ast.CallExpr); ok {
+						if sel, ok := ast.Unparen(c.Fun).(*ast.SelectorExpr); ok && sel.Sel.Name == "IsExported" {
+							return "exported", false, true
+						}
+					}
+					if sel, ok := e.(*ast.SelectorExpr); ok && sel.Sel.Name == "Anonymous" {
+						return "anonymous", false, true
+					}
+					if be, ok := e.(*ast.BinaryExpr); ok && (be.Op == token.EQL || be.Op == token.NEQ) {
+						for _, pair := range [][2]ast.Expr{{be.X, be.Y}, {be.Y, be.X}} {
+							if _, isK := isReflectKindCall(info, pair[0]); isK && strings.HasSuffix(ExprStr(pair[1]), "reflect.Struct") {
+								return "struct-kind", be.Op == token.NEQ, true
+							}
+						}
+					}
+					return "", false, false
+				}
+				if !PathRefutedRange(fl, p, j+1, end, map[string]bool{"exported": false, "anonymous": true, "struct-kind": true}, embAtom) {
+					badEmb, posEmb = "an embedded struct whose type is not exported is passed over with the unexported fields (last test: "+guard+"): its exported fields are promoted — encoded, stored and rendered — so a secure-tagged one among them survives clone/Secure", p.Ev[end-1].Pos
+				}
+			}
 		}
 	}
 	if n == 0 {
@@ -1555,6 +1590,7 @@ func ruleSecureNoSkip(r *Run, rule string) {
 		return
 	}
 	r.Check(rule, "secureStruct:no-field-skipped", bpos, bad == "", "%s", orOK(bad, "only unexported fields are passed over; tagged ones are overwritten, the others dispatched by kind"))
+	r.Check(rule, "secureStruct:embedded-struct-not-skipped", posEmb, badEmb == "", "%s", orOK(badEmb, "an embedded struct is examined whatever the name of its type"))
 }
 
 // callsHasTag: the expression calls tags.hasTag with a constant argument of this value (literal or named constant).
@@ -1571,4 +1607,109 @@ func callsHasTag(info *types.Info, e ast.Expr, tag string) bool {
 		return !found
 	})
 	return found
+}
+
+// ruleTimeExemptionOnElement (D37): the scrubber leaves time.Time alone ("don't mess with time.Time") — it must decide that
+// about the value it is about to rebuild, not about its container. In every kind dispatch `switch X.Kind()` of the clone
+// package, a time.Time exemption inside `case reflect.Struct` (a type assertion Y.Interface().(time.Time) or a
+// comparison of Y.Type()) tests Y = X, or the interface value X was unpacked from (X := Y.Elem(): Y.Interface() is
+// then X's value). secureSlice and secureMap tested the slice/map: the guard never fired, the element was rebuilt
+// from its exported fields, and every time in a []time.Time or map[K]time.Time came out zero.
+func ruleTimeExemptionOnElement(r *Run, rule string) {
+	pkg := r.P.Pkgs[pkgClone]
+	if pkg == nil {
+		r.Unresolved(rule, "package clone")
+		return
+	}
+	info := pkg.TypesInfo
+	n := 0
+	for _, fn := range r.P.sortedFuncs() {
+		if fn.Pkg != pkg || fn.Orig == nil || fn.Orig.Body == nil {
+			continue
+		}
+		if strings.HasSuffix(r.P.Fset.Position(fn.Decl.Pos()).Filename, "_test.go") {
+			continue
+		}
+		body := fn.Orig.Body
+		// single definitions of locals: X := <expr>
+		defs := map[types.Object]ast.Expr{}
+		ast.Inspect(body, func(x ast.Node) bool {
+			if as, ok := x.(*ast.AssignStmt); ok && as.Tok == token.DEFINE && len(as.Lhs) == len(as.Rhs) {
+				for i, l := range as.Lhs {
+					if o := ObjOf(info, l); o != nil {
+						defs[o] = as.Rhs[i]
+					}
+				}
+			}
+			return true
+		})
+		ast.Inspect(body, func(x ast.Node) bool {
+			sw, ok := x.(*ast.SwitchStmt)
+			if !ok || sw.Tag == nil {
+				return true
+			}
+			subj, isK := isReflectKindCall(info, sw.Tag)
+			if !isK {
+				return true
+			}
+			for _, c := range sw.Body.List {
+				cc := c.(*ast.CaseClause)
+				isStruct := false
+				for _, v := range cc.List {
+					if strings.HasSuffix(ExprStr(v), "reflect.Struct") {
+						isStruct = true
+					}
+				}
+				if !isStruct {
+					continue
+				}
+				for _, st := range cc.Body {
+					ast.Inspect(st, func(y ast.Node) bool {
+						var tested ast.Expr
+						switch v := y.(type) {
+						case *ast.TypeAssertExpr:
+							if v.Type != nil && ExprStr(v.Type) == "time.Time" {
+								if call, ok := ast.Unparen(v.X).(*ast.CallExpr); ok {
+									if sel, ok := ast.Unparen(call.Fun).(*ast.SelectorExpr); ok && sel.Sel.Name == "Interface" {
+										tested = sel.X
+									}
+								}
+							}
+						case *ast.BinaryExpr:
+							if v.Op == token.EQL || v.Op == token.NEQ {
+								for _, pair := range [][2]ast.Expr{{v.X, v.Y}, {v.Y, v.X}} {
+									if call, ok := ast.Unparen(pair[0]).(*ast.CallExpr); ok && len(call.Args) == 0 {
+										if sel, ok := ast.Unparen(call.Fun).(*ast.SelectorExpr); ok && sel.Sel.Name == "Type" && strings.Contains(strings.ToLower(ExprStr(pair[1])), "time") {
+											tested = sel.X
+										}
+									}
+								}
+							}
+						}
+						if tested == nil {
+							return true
+						}
+						n++
+						okT := ExprStr(tested) == ExprStr(subj)
+						if !okT {
+							// X := Y.Elem() with the test on Y (an interface value: Y.Interface() is X's value)
+							if o := ObjOf(info, subj); o != nil && defs[o] != nil {
+								d := ExprStr(defs[o])
+								if d == ExprStr(tested)+".Elem()" || d == ExprStr(tested) {
+									okT = true
+								}
+							}
+						}
+						r.Check(rule, "time-exemption-tests-the-dispatched-value:"+ShortFn(fn.Key)+":"+ExprStr(subj), y.Pos(), okT,
+							"in %s the kind dispatch is on %s but the time.Time exemption tests %s: the guard decides about another value (the container), so a time.Time element is never recognised, gets rebuilt from its exported fields and comes out zero", ShortFn(fn.Key), ExprStr(subj), ExprStr(tested))
+						return true
+					})
+				}
+			}
+			return true
+		})
+	}
+	if n == 0 {
+		r.Unresolved(rule, "time.Time exemptions in the kind dispatches of package clone")
+	}
 }
